@@ -12,14 +12,14 @@ HEADER = ("From ZV Require Import Common.Exec Framing.ReadConn Framing.ReadConnE
 KIND = {"okc": 0, "ok": 1, "merr": 2}
 
 
-def reply_frames(rng, flags, target):
+def reply_frames(rng, flags, target, conts=None):
     """A conforming server's replies for the chain, as frames with labels."""
     out = []
     for i, f in enumerate(flags):
         if f in ("oneway", "both"):
             continue
         if f == "more":
-            for _ in range(rng.choice([0, 0, 1, 2, 3])):
+            for _ in range(rng.choice([0, 0, 1, 2, 3]) if conts is None else conts):
                 out.append(fg.jb({"parameters": {"id": rng.randrange(0, 999)}, "continues": True}))
         end = rng.choice(["ok", "ok", "okf", "err", "errp", "noparams"] if target == "value" else
                          ["ok", "ok", "okf", "err", "errp"])
@@ -82,6 +82,23 @@ def gen_cases(ck, limit, step):
         stream = fg.wire(frames + trailing)
         ev = fg.events_of(rng, fg.chunks_from_cuts(stream, fg.random_cuts(rng, len(stream), 2)), 0.2)
         add("typed", flags, frames + trailing, ev, 2, True, "call_size_sweep", [pad, rng.randrange(0, 40), 0])
+    # long streams: a `more` call answered by hundreds of continuing replies (more than any small
+    # per-stream budget), delivered in bursts of 5..25 replies, some with suspensions in between
+    for k_ in ([127, 128, 129, 200] if quick else [64, 127, 128, 129, 130, 200, 255, 256, 257, 400, 700]):
+        for flags in (["more"], ["plain", "more", "plain"], ["more", "more"]):
+            target = rng.choice(["typed", "value"])
+            frames = reply_frames(rng, flags, target, conts=k_)
+            trailing = [fg.jb({"parameters": {"id": 7000}})]
+            allf = frames + trailing
+            stream = fg.wire(allf)
+            nul = [j + 1 for j, b in enumerate(stream) if b == 0]
+            cuts, j = [], 0
+            while j < len(nul):
+                j += rng.randrange(5, 26)
+                if j < len(nul):
+                    cuts.append(nul[j])
+            ev = fg.events_of(rng, fg.chunks_from_cuts(stream, cuts), pend_prob=rng.choice([0, 0, 0.3]))
+            add(target, list(flags), allf, ev, 2, True, "long_stream")
     # non-conforming scripts (outside the theorem: model correspondence only)
     for i in range(60 if quick else 600):
         n = rng.randrange(1, 5)
